@@ -92,6 +92,32 @@ example : TraceIn.accepts [.connUp true, .rxPub 2 7 1, .wr, .pk (.pubrec 7), .wr
 example : TraceIn.accepts [.connUp true, .rxPub 2 7 1, .wr, .pk (.pubrec 7), .wrOk, .wr, .pk (.pubcomp 7)] = false := by decide
 example : TraceIn.accepts [.connUp true, .rxPub 2 7 1, .wr, .pk (.pubrec 7), .wrOk, .rxRel 7 true, .deliver 2 7 1] = false := by decide
 
+/-! ### the recorded findings F24, F25, F26 inside the model
+The statement of C04 also has a liveness half ("every PUBLISH the broker delivers … reaches async_receive"). It is false of the code, and the
+model agrees with the code: when the write that carries an acknowledgement ends with try_again, the QoS 1 operation and the PUBREC stage give
+the message up and the PUBCOMP stage waits for a PUBREL. If the acknowledgement did reach the broker — the model does not know, the client
+does not know — nothing will ever bring the message back. The witnesses below are the model-side replays of `lib/directed.py` F25 / F24 / F26
+(the implementation-side replays run first in `vcheck C04` and are reported as KNOWN-FINDING). -/
+
+/-- F25: QoS 1, the PUBACK was in a write that failed — the message cannot be delivered any more (only a repeated PUBLISH brings it back) -/
+example : TraceIn.accepts [.connUp true, .rxPub 1 7 1, .wr, .pk (.puback 7), .connUp true, .wrFail] = true := by decide
+example : TraceIn.accepts [.connUp true, .rxPub 1 7 1, .wr, .pk (.puback 7), .connUp true, .wrFail, .deliver 1 7 1] = false := by decide
+/-- F24: QoS 2, the PUBREC was in a write that failed — a PUBREL that follows (the PUBREC did arrive) is not answered: no PUBCOMP can be written -/
+example : TraceIn.accepts [.connUp true, .rxPub 2 7 1, .wr, .pk (.pubrec 7), .connUp true, .wrFail, .rxRel 7 true, .wr, .pk (.pubcomp 7)] = false := by decide
+/-- F26: QoS 2, the PUBCOMP was in a write that failed — the message stays with the waiter until another PUBREL arrives -/
+example : TraceIn.accepts [.connUp true, .rxPub 2 7 1, .wr, .pk (.pubrec 7), .wrOk, .rxRel 7 true, .wr, .pk (.pubcomp 7), .connUp true, .wrFail,
+    .deliver 2 7 1] = false := by decide
+example : TraceIn.accepts [.connUp true, .rxPub 2 7 1, .wr, .pk (.pubrec 7), .wrOk, .rxRel 7 true, .wr, .pk (.pubcomp 7), .connUp true, .wrFail,
+    .rxRel 7 true, .wr, .pk (.pubcomp 7), .wrOk, .deliver 2 7 1] = true := by decide
+
+/-- **C04, liveness half — `_partial`** (full statement: "every PUBLISH the broker delivers … reaches async_receive"; proved part: under the
+hypothesis that the write carrying the final acknowledgement completes successfully): when the write that carries the PUBACK of a QoS 1
+message, or the PUBCOMP of a QoS 2 message, completes successfully, the message is in the receive channel. What is missing is exactly the
+recorded findings F24–F26 (the write ends with try_again although the acknowledgement reached the broker), witnessed above. -/
+theorem composed_acknowledged_is_stored_partial (s s' : TraceIn.S) (h : TraceIn.step s TraceIn.Ev.wrOk = some s') (p m : Nat) :
+    (TraceIn.Item.ackI p m ∈ s.batch → (1, p, m) ∈ s'.stored) ∧ (TraceIn.Item.compI p m ∈ s.batch → (2, p, m) ∈ s'.stored) :=
+  Mqtt5V.Proofs.TraceIn.acknowledged_is_stored_partial h
+
 end ComposedModel
 
 end Mqtt5V.Props.C04
